@@ -47,6 +47,14 @@ type State = ShardedActorState<Clock>;
 fn instance_at(n: usize, clock: &Clock) -> State {
     ShardedActorState::with_config_and_time_source(ShardConfig::with_shards(n), clock.clone())
 }
+/// the other constructor (PerformanceConfig path), with a response pool small enough to be exhausted
+fn instance_perf(n: usize, clock: &Clock, pool: (usize, usize)) -> State {
+    let mut pc = redis_sim::production::PerformanceConfig::default();
+    pc.num_shards = n;
+    pc.response_pool.capacity = pool.0;
+    pc.response_pool.prewarm = pool.1;
+    ShardedActorState::with_perf_config_and_time_source(&pc, ShardConfig::with_shards(n), clock.clone())
+}
 fn instance(n: usize) -> State {
     instance_at(n, &Clock::new())
 }
@@ -117,6 +125,14 @@ fn canon(r: &Rq, v: RespValue) -> RespValue {
         x => x,
     };
     match (r, v) {
+        // INFO prints num_shards, pid, memory, clocks: only the key count of the Keyspace section is compared
+        (Rq::Gen(Command::Info), RespValue::BulkString(Some(text))) => {
+            let t = String::from_utf8_lossy(&text).to_string();
+            let line = t.lines().find(|l| l.starts_with("db0:")).unwrap_or("db0:absent").to_string();
+            RespValue::BulkString(Some(line.into_bytes()))
+        }
+        // TIME is the wall clock: only the shape is compared
+        (Rq::Gen(Command::Time), RespValue::Array(Some(l))) => RespValue::SimpleString(format!("time-array-of-{}", l.len()).into()),
         (Rq::Gen(Command::Keys(_)), RespValue::Array(Some(mut l)))
         | (Rq::Gen(Command::SMembers(_)), RespValue::Array(Some(mut l)))
         | (Rq::Gen(Command::HKeys(_)), RespValue::Array(Some(mut l)))
@@ -535,14 +551,22 @@ fn gen_single_home(rng: &mut Rng, c: &Ctx) -> Rq {
         93..=95 => Rq::Gen(Command::Keys(gen_pattern(rng, c))),
         96..=97 => Rq::Gen(Command::DbSize),
         98 => Rq::Gen(if rng.gen_bool(0.5) { Command::FlushDb } else { Command::FlushAll }),
-        _ => Rq::Gen(if rng.gen_bool(0.5) { Command::Ping(None) } else { Command::Echo(sds(rng)) }),
+        _ => Rq::Gen(match rng.gen_range(0..3) { 0 => Command::Ping(None), 1 => Command::Ping(Some(sds(rng))), _ => Command::Echo(sds(rng)) }),
     }
 }
 /// commands of the known-finding class: they name two or more keys (executed wholly on the shard of
 /// the first) or are keyless and state dependent (executed on shard 0)
 fn gen_class(rng: &mut Rng, c: &Ctx, wide: bool) -> Rq {
-    let top = if wide { 10 } else { 8 };
+    let top = if wide { 15 } else { 8 };
     Rq::Gen(match rng.gen_range(0..top) {
+        // executor-level MULTI/EXEC/DISCARD/WATCH/UNWATCH sent through execute(): keyless (WATCH: first
+        // key) and dependent on executor state that lives on one shard only - known class; the
+        // production server intercepts them in the connection layer ('conn' cases)
+        10 => Command::Multi,
+        11 => Command::Exec,
+        12 => Command::Discard,
+        13 => Command::Watch(c.some(rng, 1, 2, true)),
+        14 => Command::Unwatch,
         0 => Command::RPopLPush(c.any(rng), c.d(rng)),
         1 => Command::LMove { source: c.any(rng), dest: c.d(rng), wherefrom: if rng.gen_bool(0.5) { "LEFT".into() } else { "RIGHT".into() }, whereto: if rng.gen_bool(0.5) { "LEFT".into() } else { "RIGHT".into() } },
         // source != destination: RENAME k k trips a debug postcondition of the executor (not this property)
@@ -571,7 +595,40 @@ fn gen_wide(rng: &mut Rng, c: &Ctx) -> Rq {
     let ne: Vec<&String> = c.sk.iter().filter(|k| !k.is_empty()).collect();
     let k = ne[rng.gen_range(0..ne.len())].clone();
     let m = |rng: &mut Rng| SDS::from_str(["m1", "m2", "m3"][rng.gen_range(0..3)]);
-    Rq::Gen(match rng.gen_range(0..24) {
+    let big = |rng: &mut Rng| SDS::from_str(["9223372036854775807", "-9223372036854775808", "9223372036854775806", "0", "-1", "1e3", " 7"][rng.gen_range(0..7)]);
+    Rq::Gen(match rng.gen_range(0..56) {
+        24 => Command::set(k, big(rng)),
+        25 => Command::IncrBy(k, [i64::MAX, i64::MIN, 1, -1, 1 << 62][rng.gen_range(0..5)]),
+        26 => Command::DecrBy(k, [i64::MAX, i64::MIN + 1, 1, -1][rng.gen_range(0..4)]),
+        27 => Command::IncrByFloat(k, [0.5, -0.25, 1e3][rng.gen_range(0..3)]),
+        28 => Command::GetEx { key: k, ex: None, px: None, exat: None, pxat: None, persist: rng.gen_bool(0.5) },
+        29 => Command::SetBit(k, rng.gen_range(0..70), rng.gen_range(0..2)),
+        30 => Command::GetBit(k, rng.gen_range(0..70)),
+        31 => Command::HScan { key: k, cursor: 0, pattern: None, count: None },
+        32 => Command::ZScan { key: k, cursor: 0, pattern: None, count: None },
+        33 => Command::ObjectEncoding(k),
+        34 => Command::ObjectRefCount(k),
+        35 => Command::DebugObject(k),
+        36 => Command::LIndex(c.d(rng), rng.gen_range(-2..3)),
+        37 => Command::LSet(c.d(rng), rng.gen_range(-2..3), sds(rng)),
+        38 => Command::LTrim(c.d(rng), rng.gen_range(-3..2), rng.gen_range(-2..4)),
+        39 => Command::ZRank(k, m(rng)),
+        40 => Command::ZCount(k, "-inf".into(), "+inf".into()),
+        41 => Command::ZRangeByScore { key: k, min: "0".into(), max: "(3".into(), with_scores: true, limit: None },
+        42 => Command::ZRevRange(k, 0, -1, false),
+        43 => Command::HExists(k, m(rng)),
+        44 => Command::HIncrBy(k, m(rng), rng.gen_range(-3..4)),
+        45 => Command::HVals(k),
+        46 => Command::ExpireTime(k),
+        47 => Command::PExpireTime(k),
+        48 => Command::Pttl(k),
+        49 => Command::Info,
+        50 => Command::Time,
+        51 => Command::Select(0),
+        52 => Command::ConfigGet("maxmemory".into()),
+        53 => Command::Wait(0, 0),
+        54 => Command::CommandCount,
+        55 => Command::Unknown("NOSUCHCOMMAND".into()),
         0 => Command::SAdd(k, vec![m(rng), m(rng)]),
         1 => Command::SRem(k, vec![m(rng)]),
         2 => Command::SMembers(k),
@@ -633,8 +690,21 @@ fn gen_ttl(rng: &mut Rng, c: &Ctx, free_time: bool) -> Rq {
         92..=93 => Rq::Gen(Command::DbSize),
         94..=95 => Rq::Gen(Command::Keys(gen_pattern(rng, c))),
         96 => Rq::Gen(Command::Scan { cursor: 0, pattern: None, count: Some(rng.gen_range(1..5)) }),
-        97 => Rq::Gen(Command::Append(k, sds(rng))),
-        98 => Rq::Gen(Command::Del(c.some(rng, 1, 2, false))),
+        97 => {
+            // absolute deadlines around "now" (the clock starts at 1_700_000_000_000 ms and has moved a few seconds at most)
+            let at_ms = 1_700_000_000_000i64 + [-1000, 0, 1, 50, 100, 1000, 3000, 6000][rng.gen_range(0..8)];
+            Rq::Gen(match rng.gen_range(0..8) {
+                0 => Command::ExpireAt(k, at_ms / 1000 + rng.gen_range(0..3)),
+                1 => Command::PExpireAt(k, at_ms),
+                2 => Command::Set { key: k, value: sds(rng), ex: None, px: None, exat: Some(at_ms / 1000 + 1), pxat: None, nx: false, xx: false, get: false, keepttl: false },
+                3 => Command::Set { key: k, value: sds(rng), ex: None, px: None, exat: None, pxat: Some(at_ms), nx: false, xx: false, get: false, keepttl: false },
+                4 => Command::GetEx { key: k, ex: None, px: Some(px_choice(rng)), exat: None, pxat: None, persist: false },
+                5 => Command::Set { key: k, value: sds(rng), ex: None, px: None, exat: None, pxat: None, nx: false, xx: false, get: false, keepttl: true },
+                6 => Command::PExpireTime(k),
+                _ => Command::ExpireTime(k),
+            })
+        }
+        98 => Rq::Gen(if rng.gen_bool(0.5) { Command::Append(k, sds(rng)) } else { Command::Del(c.some(rng, 1, 2, false)) }),
         _ => Rq::Gen(Command::LPush(c.d(rng), vec![sds(rng)])),
     }
 }
@@ -806,6 +876,13 @@ fn gen_conn(rng: &mut Rng, c: &Ctx) -> (Vec<Rq>, Vec<bool>) {
     let items = rng.gen_range(5..14);
     for _ in 0..items {
         if rng.gen_bool(0.45) {
+            if rng.gen_bool(0.25) {
+                let k = script_key(rng, c);
+                seq.push(w(&[b"WATCH", k.as_bytes()]));
+                if rng.gen_bool(0.5) {
+                    seq.push(wire_cmd(rng, c, false)); // possibly touches the watched key
+                }
+            }
             seq.push(w(&[b"MULTI"]));
             for _ in 0..rng.gen_range(2..7) {
                 seq.push(wire_cmd(rng, c, true));
@@ -815,6 +892,16 @@ fn gen_conn(rng: &mut Rng, c: &Ctx) -> (Vec<Rq>, Vec<bool>) {
             for _ in 0..rng.gen_range(1..4) {
                 seq.push(wire_cmd(rng, c, false));
             }
+        }
+    }
+    // a read holding many plain GETs / SETs (the batch collectors; counts around 64 / 128)
+    if rng.gen_bool(0.4) {
+        let g = [2usize, 3, 63, 64, 65, 129][rng.gen_range(0..6)];
+        let ne: Vec<&String> = c.sk.iter().filter(|k| !k.is_empty()).collect();
+        let set = rng.gen_bool(0.5);
+        for i in 0..g {
+            let k = ne[i % ne.len()].as_bytes();
+            seq.push(if set { w(&[b"SET", k, i.to_string().as_bytes()]) } else { w(&[b"GET", k]) });
         }
     }
     seq.push(w(&[b"DBSIZE"]));
@@ -864,16 +951,24 @@ fn canon_wire(cmd: &Rq, v: RespValue) -> RespValue {
 }
 /// the same byte stream through a fresh OptimizedConnectionHandler on a fresh n-shard state: one
 /// reply per command, in order (C04); the elements of an EXEC reply belong to the queued commands
-async fn run_conn(n: usize, seq: &[Rq], starts: &[bool]) -> Vec<RespValue> {
+/// `split`: the commands from that index on are sent on a SECOND connection to the same state,
+/// after the first connection ended (possibly in the middle of a MULTI block)
+async fn run_conn(n: usize, seq: &[Rq], starts: &[bool], split: Option<usize>) -> Vec<RespValue> {
     use redis_sim::production::ConnectionConfig;
-    let mut chunks: Vec<Vec<u8>> = Vec::new();
-    for (r, st) in seq.iter().zip(starts) {
-        let bytes = match r { Rq::Wire(a) => enc_wire(a), _ => unreachable!() };
-        if *st || chunks.is_empty() { chunks.push(bytes) } else { chunks.last_mut().unwrap().extend(bytes) }
-    }
     let state = ShardedActorState::with_shards(n);
-    let config = ConnectionConfig { max_buffer_size: 1 << 24, read_buffer_size: 1 << 20, min_pipeline_buffer: 60, batch_threshold: 2 };
-    let (written, _) = vharness::conn::run_handler(state, config, chunks).await;
+    let cut = split.unwrap_or(seq.len()).min(seq.len());
+    let mut written: Vec<u8> = Vec::new();
+    for (lo, hi) in [(0usize, cut), (cut, seq.len())] {
+        if lo == hi { continue; }
+        let mut chunks: Vec<Vec<u8>> = Vec::new();
+        for i in lo..hi {
+            let bytes = match &seq[i] { Rq::Wire(a) => enc_wire(a), _ => unreachable!() };
+            if starts[i] || chunks.is_empty() { chunks.push(bytes) } else { chunks.last_mut().unwrap().extend(bytes) }
+        }
+        let config = ConnectionConfig { max_buffer_size: 1 << 24, read_buffer_size: 1 << 20, min_pipeline_buffer: 60, batch_threshold: 2 };
+        let (wr, _) = vharness::conn::run_handler(state.clone(), config, chunks).await;
+        written.extend(wr);
+    }
     let mut replies = Vec::new();
     let mut off = 0;
     while off < written.len() {
@@ -892,6 +987,10 @@ async fn run_conn(n: usize, seq: &[Rq], starts: &[bool]) -> Vec<RespValue> {
     let mut queue: Vec<&Rq> = Vec::new();
     let mut in_multi = false;
     for (i, r) in seq.iter().enumerate() {
+        if i == cut {
+            in_multi = false; // a new connection starts outside MULTI
+            queue.clear();
+        }
         let v = replies.get(i).cloned().unwrap_or_else(|| RespValue::Error("MISSING REPLY".into()));
         let name = wire_name(r);
         let v = match name.as_str() {
@@ -914,6 +1013,79 @@ async fn run_conn(n: usize, seq: &[Rq], starts: &[bool]) -> Vec<RespValue> {
         out.push(RespValue::Error(format!("{} replies for {} commands", replies.len(), seq.len()).into()));
     }
     out
+}
+
+/// key counts and value sizes around the constants of the code under test: SCAN's default COUNT 10,
+/// response-pool prewarm 64 / capacity 256, connection batch sizes, 4 KiB / 64 KiB / 1 MiB values
+fn big_case(rng: &mut Rng, big_max: usize) -> (Vec<Rq>, bool) {
+    let mut sizes: Vec<usize> = vec![9, 10, 11, 20, 21, 63, 64, 65, 127, 128, 129, 255, 256, 257];
+    if big_max > 257 {
+        sizes.extend([1000, 4096, big_max]);
+    }
+    let m = sizes[rng.gen_range(0..sizes.len())];
+    let name = |i: usize| format!("b:{}", i);
+    let all: Vec<String> = (0..m).map(name).collect();
+    let mut v: Vec<Rq> = Vec::new();
+    // write every key through one of the bulk / per-key paths
+    match rng.gen_range(0..4) {
+        0 => v.push(Rq::Gen(Command::MSet(all.iter().map(|k| (k.clone(), SDS::from_str(k))).collect()))),
+        1 => v.push(Rq::PipeSet(all.iter().map(|k| (k.clone(), k.as_bytes().to_vec())).collect())),
+        2 => for (i, k) in all.iter().enumerate() {
+            v.push(match i % 3 { 0 => Rq::FastSet(k.clone(), k.as_bytes().to_vec()), 1 => Rq::PooledSet(k.clone(), k.as_bytes().to_vec()), _ => Rq::Gen(Command::set(k.clone(), SDS::from_str(k))) });
+        },
+        _ => {
+            // two bulk writes whose sizes are c-1 / c+1 around the count
+            let cut = m / 2;
+            v.push(Rq::Gen(Command::MSet(all[..cut].iter().map(|k| (k.clone(), SDS::from_str(k))).collect())));
+            v.push(Rq::PipeSet(all[cut..].iter().map(|k| (k.clone(), k.as_bytes().to_vec())).collect()));
+        }
+    }
+    v.push(Rq::Gen(Command::MGet(all.clone())));
+    v.push(Rq::PipeGet(all.clone()));
+    if m <= 300 {
+        for k in all.iter() {
+            v.push(Rq::PooledGet(k.clone())); // more pooled requests than the pool has slots
+        }
+    }
+    v.push(Rq::Gen(Command::DbSize));
+    v.push(Rq::Gen(Command::Info));
+    v.push(Rq::Gen(Command::Keys("b:*".into())));
+    v.push(Rq::Gen(Command::Keys("b:[0-9]".into())));
+    v.push(Rq::Gen(Command::Exists(all.clone())));
+    // a complete SCAN iteration (the cursor is an index into the sorted key list, so the pages of a
+    // correct server start at multiples of COUNT), then cursors and counts at the edges
+    let count: Option<usize> = [None, Some(1), Some(7), Some(10), Some(11), Some(64), Some(m.saturating_sub(1).max(1)), Some(m), Some(m + 1)][rng.gen_range(0..9)];
+    let step = count.unwrap_or(10);
+    let mut cur = 0usize;
+    let mut pages = 0;
+    while cur <= m + step && pages < 45 {
+        v.push(Rq::Gen(Command::Scan { cursor: cur as u64, pattern: if rng.gen_bool(0.2) { Some("b:[1-4]*".into()) } else { None }, count }));
+        cur += step;
+        pages += 1;
+    }
+    for cursor in [m.saturating_sub(1) as u64, m as u64, m as u64 + 1, u64::MAX, (1u64 << 32) + 1] {
+        v.push(Rq::Gen(Command::Scan { cursor, pattern: None, count: Some([1usize, 10, usize::MAX][rng.gen_range(0..3)]) }));
+    }
+    // values around 4 KiB / 64 KiB / 1 MiB, written on one path and read on the other
+    let mut huge = false;
+    if rng.gen_bool(0.5) {
+        for (j, len) in [4095usize, 4096, 4097, 65535, 65536, 65537, 1 << 20].iter().enumerate() {
+            if *len >= 65535 { huge = true; }
+            let k = format!("bv:{}", j);
+            let val: Vec<u8> = (0..*len).map(|i| (i % 251) as u8).collect();
+            match j % 3 { 0 => v.push(Rq::FastSet(k.clone(), val)), 1 => v.push(Rq::Gen(Command::set(k.clone(), SDS::new(val)))), _ => v.push(Rq::PipeSet(vec![(k.clone(), val)])) }
+            v.push(Rq::Gen(Command::StrLen(k.clone())));
+            v.push(if j % 2 == 0 { Rq::Gen(Command::Get(k)) } else { Rq::PooledGet(k) });
+        }
+    }
+    // multi-key DEL of half of the keys, the rest one by one or flushed
+    v.push(Rq::Gen(Command::Del(all.iter().step_by(2).cloned().collect())));
+    v.push(Rq::Gen(Command::DbSize));
+    v.push(Rq::Gen(Command::Exists(all.clone())));
+    v.push(Rq::Gen(Command::Scan { cursor: 0, pattern: None, count: None }));
+    v.push(Rq::Gen(if rng.gen_bool(0.5) { Command::FlushAll } else { Command::Del(all.clone()) }));
+    v.push(Rq::Gen(Command::DbSize));
+    (v, m > 65 || huge)
 }
 
 fn dump_tail(c: &Ctx, wide: bool) -> Vec<Rq> {
@@ -943,6 +1115,7 @@ fn main() {
     let range: Vec<u64> = match args.only { Some(i) => vec![i], None => (0..args.n).collect() };
     let (ps, pd, pe, ped) = (pool_s(), pool_d(), pool_e(), pool_ed());
     let free_time = args.get("free_time", 0) == 1;
+    let big_max = args.get("big_max", 257) as usize;
 
     if args.get("nonutf8", 0) == 1 {
         // observation only (not part of the check): a key that is not valid UTF-8
@@ -1004,8 +1177,11 @@ fn main() {
 
         for i in range {
             let mut rng = case_rng(args.seed, i);
-            let n = SHARD_COUNTS[rng.gen_range(0..SHARD_COUNTS.len())];
-            let flavour = match rng.gen_range(0..100) { 0..=37 => "pure", 38..=52 => "class", 53..=60 => "scan", 61..=72 => "wide", 73..=83 => "ttl", 84..=91 => "script", _ => "conn" };
+            // mostly the three shard counts whose pools are partitioned at start-up; sometimes another
+            // one (powers of two and not, up to max_shards = 256)
+            const EXTRA_COUNTS: [usize; 8] = [4, 5, 7, 8, 17, 32, 64, 256];
+            let n = if rng.gen_bool(0.12) { EXTRA_COUNTS[rng.gen_range(0..EXTRA_COUNTS.len())] } else { SHARD_COUNTS[rng.gen_range(0..SHARD_COUNTS.len())] };
+            let flavour = match rng.gen_range(0..100) { 0..=35 => "pure", 36..=49 => "class", 50..=56 => "scan", 57..=68 => "wide", 69..=79 => "ttl", 80..=86 => "script", 87..=94 => "conn", _ => "big" };
             let wide = flavour == "wide";
             let mut sk = ps.clone();
             sk.shuffle(&mut rng);
@@ -1092,6 +1268,13 @@ fn main() {
             if flavour == "script" {
                 seq.extend(script_block(&mut rng, &c));
             }
+            let mut no_model = false;
+            if flavour == "big" {
+                let (b2, heavy) = big_case(&mut rng, big_max);
+                out.count(&format!("big:requests~{}", (b2.len() / 100) * 100));
+                no_model = heavy;
+                seq.extend(b2);
+            }
             let len = seq.len();
             for k in ek.iter() {
                 out.count(&format!("name-shape:{}", name_shape(k)));
@@ -1110,8 +1293,12 @@ fn main() {
 
             // ---- run on the implementation: 1 shard and N shards, fresh instances
             let clock = Clock::new();
-            let one = instance_at(1, &clock);
-            let many = instance_at(n, &clock);
+            let ctor = rng.gen_range(0..3);
+            let pool = [(256usize, 64usize), (2, 1), (64, 64)][rng.gen_range(0..3)];
+            let (one, many) = if ctor == 0 { (instance_perf(1, &clock, pool), instance_perf(n, &clock, pool)) } else { (instance_at(1, &clock), instance_at(n, &clock)) };
+            // requests alternate between the state and a clone of it (the server hands a clone to every connection)
+            let (one2, many2) = (one.clone(), many.clone());
+            out.count(if ctor == 0 { "ctor:with_perf_config_and_time_source" } else { "ctor:with_config_and_time_source" });
             let mut obs1 = Vec::new();
             let mut obsn = Vec::new();
             // the number a sweep reports is no reply to any client: it is compared only while time has
@@ -1119,9 +1306,12 @@ fn main() {
             // clock has advanced without a sweep, a single shard has lazily dropped keys that other shards
             // of an N-shard node have had no reason to look at, and the counts legitimately differ
             let mut free_seen = false;
+            let mut rq_no = 0u64;
             if is_conn {
-                obs1 = run_conn(1, &seq, &conn_starts).await;
-                obsn = run_conn(n, &seq, &conn_starts).await;
+                let split = if rng.gen_bool(0.4) { Some(rng.gen_range(1..seq.len())) } else { None };
+                if split.is_some() { out.count("conn:two-connections-on-one-state"); }
+                obs1 = run_conn(1, &seq, &conn_starts, split).await;
+                obsn = run_conn(n, &seq, &conn_starts, split).await;
             }
             for r in seq.iter().filter(|_| !is_conn) {
                 if let Rq::Tick(ms) | Rq::Advance(ms) = r {
@@ -1130,7 +1320,8 @@ fn main() {
                 if matches!(r, Rq::Advance(_)) {
                     free_seen = true;
                 }
-                let (a, b) = (run_one(&one, r).await, run_one(&many, r).await);
+                rq_no += 1;
+                let (a, b) = if rq_no % 2 == 0 { (run_one(&one, r).await, run_one(&many, r).await) } else { (run_one(&one2, r).await, run_one(&many2, r).await) };
                 if free_seen && matches!(r, Rq::Tick(_)) {
                     obs1.push(RespValue::simple("OK"));
                     obsn.push(RespValue::simple("OK"));
@@ -1141,9 +1332,27 @@ fn main() {
             }
 
             // ---- routing facts of this case's keys, observed on the probe instance
-            let p = &probes[&n];
-            let cls = &class_of[&n];
             let keys = c.all();
+            if !probes.contains_key(&n) {
+                probes.insert(n, Probe { st: instance(n), n });
+            }
+            let p = &probes[&n];
+            // shard classes of the case's keys: from the start-up partition, or (other shard counts) by probing now
+            let cls_local: BTreeMap<String, usize>;
+            let cls: &BTreeMap<String, usize> = if let Some(m) = class_of.get(&n) { m } else {
+                let mut reps: Vec<String> = Vec::new();
+                let mut m: BTreeMap<String, usize> = BTreeMap::new();
+                for k in &keys {
+                    let mut found = None;
+                    for (ci, r) in reps.iter().enumerate() {
+                        if p.coloc(r, k, false).await { found = Some(ci); break; }
+                    }
+                    let ci = match found { Some(ci) => ci, None => { reps.push(k.clone()); reps.len() - 1 } };
+                    m.insert(k.clone(), ci);
+                }
+                cls_local = m;
+                &cls_local
+            };
             let mut facts: Vec<String> = Vec::new();
             let mut split_keys: Vec<String> = Vec::new();
             for k in &keys {
@@ -1180,13 +1389,13 @@ fn main() {
                 if let Rq::Gen(cmd) = r {
                     let ks: Vec<String> = match cmd {
                         Command::RPopLPush(..) | Command::LMove { .. } | Command::Rename(..) | Command::RenameNx(..) | Command::MSetNx(_) | Command::Sort { .. } | Command::Eval { .. } => cmd.get_keys(),
-                        Command::RandomKey => return Some("keyless"),
+                        Command::RandomKey | Command::Multi | Command::Exec | Command::Discard | Command::Watch(_) | Command::Unwatch => return Some("keyless"),
                         _ => vec![],
                     };
                     if matches!(cmd, Command::Eval { .. }) && ks.is_empty() {
                         return Some("keyless");
                     }
-                    let cs: BTreeSet<usize> = ks.iter().map(|k| cls[k]).collect();
+                    let cs: BTreeSet<usize> = ks.iter().filter_map(|k| cls.get(k).copied()).collect();
                     if cs.len() > 1 {
                         return Some("cross");
                     }
@@ -1233,13 +1442,13 @@ fn main() {
             }
 
             // ---- the Coq case
-            let modelled: Option<Vec<String>> = seq.iter().map(rq_term).collect();
+            let modelled: Option<Vec<String>> = if no_model { None } else { seq.iter().map(rq_term).collect() };
             let (reqs, o1, on) = match &modelled {
                 Some(ts) => (format!("[{}]", ts.join("; ")), clist(obs1.iter(), reply_term), clist(obsn.iter(), reply_term)),
                 None => ("[]".to_string(), "[]".to_string(), "[]".to_string()),
             };
             let term = format!("(KC {} [{}] {} {} {})", n, facts.join("; "), reqs, on, o1);
-            let touched: BTreeSet<usize> = keys.iter().map(|k| cls[k]).collect();
+            let touched: BTreeSet<usize> = keys.iter().filter_map(|k| cls.get(k).copied()).collect();
             let canon_text = seq.iter().map(rq_text).collect::<Vec<_>>().join("|");
             out.case(i, term, touched.len() >= 2, &format!("{}#{}", n, canon_text));
             out.count(if modelled.is_some() { "coq:sequence+routing" } else { "coq:routing-only" });
